@@ -4,6 +4,7 @@ import (
 	"bytes"
 	"encoding/json"
 	"fmt"
+	"go/types"
 	"math/big"
 	"os"
 	"os/exec"
@@ -167,7 +168,7 @@ func (p *Program) replayCandidates(fr *FuncResult, model map[string]string, work
 		cands = candidateModels(model)
 	}
 	for _, cm := range cands {
-		me := &modelEnv{m: cm, pkg: fn.Pkg.Pkg, prog: p, wantGauge: wantGauge, imports: imports}
+		me := &modelEnv{m: cm, pkg: fn.Pkg.Pkg, prog: p, wantGauge: wantGauge, imports: imports, cells: ex.Entry.Cells}
 		me.declBase = len(decls)
 		var argExprs []string
 		ok := true
@@ -188,6 +189,24 @@ func (p *Program) replayCandidates(fr *FuncResult, model map[string]string, work
 			continue
 		}
 		decls = append(decls, me.decls...)
+		// objects passed by pointer: keep them in variables so that their fields can be observed after the call
+		var pre []string
+		var extras []string
+		for i, prm := range fn.Params {
+			pt, ok := prm.Type().Underlying().(*types.Pointer)
+			if !ok || !strings.HasPrefix(argExprs[i], "&") {
+				continue
+			}
+			stt, ok := pt.Elem().Underlying().(*types.Struct)
+			if !ok {
+				continue
+			}
+			pre = append(pre, fmt.Sprintf("p%d := %s", i, argExprs[i]))
+			argExprs[i] = fmt.Sprintf("p%d", i)
+			for fi := 0; fi < stt.NumFields(); fi++ {
+				extras = append(extras, fmt.Sprintf("p%d.%s", i, stt.Field(fi).Name()))
+			}
+		}
 		var call string
 		if fn.Signature.Recv() != nil {
 			call = fmt.Sprintf("(%s).%s(%s)", argExprs[0], fn.Name(), strings.Join(argExprs[1:], ", "))
@@ -195,18 +214,22 @@ func (p *Program) replayCandidates(fr *FuncResult, model map[string]string, work
 			call = fmt.Sprintf("%s(%s)", fn.Name(), strings.Join(argExprs, ", "))
 		}
 		nres := fn.Signature.Results().Len()
-		var body string
-		switch nres {
-		case 0:
-			body = call + "\n\t\treturn nil"
-		case 1:
-			body = "r0 := " + call + "\n\t\treturn []any{r0}"
-		default:
-			var rs []string
-			for i := 0; i < nres; i++ {
-				rs = append(rs, fmt.Sprintf("r%d", i))
-			}
-			body = strings.Join(rs, ", ") + " := " + call + "\n\t\treturn []any{" + strings.Join(rs, ", ") + "}"
+		var rs []string
+		for i := 0; i < nres; i++ {
+			rs = append(rs, fmt.Sprintf("r%d", i))
+		}
+		body := strings.Join(pre, "\n\t\t")
+		if len(pre) > 0 {
+			body += "\n\t\t"
+		}
+		if nres == 0 {
+			body += call
+		} else {
+			body += strings.Join(rs, ", ") + " := " + call
+		}
+		body += "\n\t\treturn []any{" + strings.Join(append(rs, extras...), ", ") + "}"
+		if len(pre) > 0 {
+			call = strings.Join(pre, "; ") + "; " + call
 		}
 		in := strings.Join(me.desc, " ")
 		if len(in) > 600 {
@@ -278,8 +301,9 @@ func (p *Program) runHarnessMulti(fn *ssa.Function, bodies []string, decls []str
 		ipaths = append(ipaths, ip)
 	}
 	sort.Strings(ipaths)
+	allCode := strings.Join(bodies, "\n") + strings.Join(decls, "\n")
 	for _, ip := range ipaths {
-		if ip != pkgPath {
+		if ip != pkgPath && strings.Contains(allCode, imports[ip]+".") {
 			fmt.Fprintf(&src, "\t%s %q\n", imports[ip], ip)
 		}
 	}
